@@ -549,13 +549,13 @@ def install(I):
             return I.ret(st, args[1] if v.variant == 'Some' else NONE)
         raise Unmodelled(f)
 
-    @M(r'^bool::(then|then_some)$|^core::bool::<impl bool>::(then|then_some)$', 'bool::then')
+    @M(r'^bool::(then|then_some)(::<.*>)?$|^core::bool::<impl bool>::(then|then_some)(::<.*>)?$', 'bool::then')
     def m_then(I, st, f, args, fr):
         outs = []
         for s2, yes in branch(I, st, I.as_bool(args[0])):
             if not yes:
                 outs.append(Outcome(s2, 'ret', NONE))
-            elif f.endswith('then_some'):
+            elif 'then_some' in f:
                 outs.append(Outcome(s2, 'ret', some(args[1])))
             else:
                 for o in I.call_callable(s2, args[1], [], fr):
